@@ -7,7 +7,7 @@
    parametric in the per-connection machine (cstate, cinit, cclosed, process, flush).
    PARTIAL with respect to the property text: the Go memory model, the scheduler and the
    race detector are outside the model; "no data race" is the lockset statement below. *)
-From GP Require Import Base C12Model C12Proofs.
+From GP Require Import Base C12Model C12Proofs C12Link C12Term C12Once C12AgeFree.
 Open Scope nat_scope.
 
 Section Statements.
@@ -114,6 +114,59 @@ Proof.
 Qed.
 Print Assumptions C12_one_entry.
 
+(* the verdict the model runner prints for a state (tag m-one-entry when false) is this predicate *)
+Theorem C12_one_entry_checker : forall cstate cinit g s,
+  chk_one_entry cstate cinit g s = true <-> C12_one_entry_stmt cstate cinit g s.
+Proof. intros cs ci g s. exact (chk_one_entry_iff cs ci g s). Qed.
+Print Assumptions C12_one_entry_checker.
+Theorem C12_one_entry_chk : forall cstate cinit cclosed creset process flush ctrail g progs s,
+  machine_ok cstate cinit cclosed creset process flush -> trail_cfg g = false ->
+  reachable cstate cinit cclosed creset process flush ctrail g progs s ->
+  chk_one_entry cstate cinit g s = true.
+Proof.
+  intros cs ci cc cr pr fl ct g progs s Hm GT R. apply C12_one_entry_checker.
+  eapply C12_one_entry; eassumption.
+Qed.
+Print Assumptions C12_one_entry_chk.
+
+(* Lifting trail_cfg g = false.  Reassembly's second, unlocked remove() is reached only from an
+   age-based flush (FlushWithOptions / FlushCloseOlderThan): for programs that contain none
+   (packets and FlushAll only) the same statements hold for the reassembly code as it is
+   (g_trail = true).  The schedules that need the hypothesis are exactly those of the known finding
+   C12-reassembly-second-remove: a thread reaches PRemove2 (C12_flush_skips_closed_refuted_reassembly). *)
+Theorem C12_no_second_remove_without_age_flush : forall cstate cinit cclosed creset process flush ctrail g progs s,
+  (forall st, ctrail None st = false) -> age_free_progs progs ->
+  reachable cstate cinit cclosed creset process flush ctrail g progs s ->
+  forall t, trail_pc (t_pc (thr s t)) = false.
+Proof. intros cs ci cc cr pr fl ct g progs s Hct AF R. exact (no_trail_age_free cs ci cc cr pr fl ct Hct g progs s AF R). Qed.
+Theorem C12_one_entry_age_free : forall cstate cinit cclosed creset process flush ctrail g progs s,
+  machine_ok cstate cinit cclosed creset process flush -> (forall st, ctrail None st = false) ->
+  age_free_progs progs -> reachable cstate cinit cclosed creset process flush ctrail g progs s ->
+  C12_one_entry_stmt cstate cinit g s.
+Proof.
+  intros cs ci cc cr pr fl ct g progs s Hm Hct AF R.
+  destruct (invariants_age_free cs ci cc cr pr fl ct Hm Hct g progs s AF R) as [[A B C D E F _ _] _].
+  split; [exact A|]. split; [exact B|]. split; [exact C|]. split; [exact D|]. split; [exact E|].
+  intros c Hc. destruct (F c Hc) as [F1 [F2 _]]. split; assumption.
+Qed.
+Theorem C12_complete_once_partial_age_free : forall cstate cinit cclosed creset process flush ctrail g progs s,
+  machine_ok cstate cinit cclosed creset process flush -> (forall st, ctrail None st = false) ->
+  age_free_progs progs -> reachable cstate cinit cclosed creset process flush ctrail g progs s ->
+  (forall sid, completes sid (s_log s) <= 1) /\
+  (forall c1 c2, c1 < length (s_objs s) -> c2 < length (s_objs s) ->
+     c_stream (obj cstate cinit s c1) = c_stream (obj cstate cinit s c2) -> c1 = c2).
+Proof.
+  intros cs ci cc cr pr fl ct g progs s Hm Hct AF R.
+  destruct (invariants_age_free cs ci cc cr pr fl ct Hm Hct g progs s AF R) as [_ IS]. split.
+  - intros sid. exact (proj1 (is_once _ _ _ _ IS sid)).
+  - exact (is_inj _ _ _ _ IS).
+Qed.
+Theorem C12_reassembly_flushall_no_second_remove : forall st, rsm_trail None st = false.
+Proof. reflexivity. Qed.
+Print Assumptions C12_no_second_remove_without_age_flush.
+Print Assumptions C12_one_entry_age_free.
+Print Assumptions C12_complete_once_partial_age_free.
+
 (* a stream belongs to one connection object at a time (fresh stream per reset) *)
 Theorem C12_stream_owner_unique : forall cstate cinit cclosed creset process flush ctrail g progs s,
   machine_ok cstate cinit cclosed creset process flush -> trail_cfg g = false ->
@@ -164,6 +217,68 @@ Theorem C12_inorder_without_recycling : forall cstate cinit cclosed creset proce
 Proof. intros cs ci cc cr pr fl ct g Hm GT G progs s R. exact (right_stream_norecycle cs ci cc cr pr fl ct Hm g progs s GT G R). Qed.
 Print Assumptions C12_lockset_without_recycling.
 Print Assumptions C12_inorder_without_recycling.
+
+(* C12_complete_once in full, without recycling: no stream is completed twice, and once the pool
+   is empty (e.g. at the end of a complete run whose last call was a FlushAll) every stream that
+   was entered in the pool has been completed exactly once.  With recycling (the code as it is)
+   the "at most once" half still holds (C12_complete_once_partial) and the "exactly once" half is
+   refuted by C12_complete_once_refuted_tcpassembly / _reassembly below. *)
+Theorem C12_complete_once_without_recycling : forall cstate cinit cclosed creset process flush ctrail g,
+  machine_ok cstate cinit cclosed creset process flush -> trail_cfg g = false -> g_recycle g = false ->
+  C12_complete_once_stmt cstate cinit cclosed creset process flush ctrail g.
+Proof.
+  intros cs ci cc cr pr fl ct g Hm GT G progs s R.
+  assert (M : chk_complete_most_once s = true).
+  { unfold chk_complete_most_once. apply forallb_forall. intros sid _. apply Nat.leb_le.
+    exact (proj1 (is_once _ _ _ _ (inv_str_reachable cs ci cc cr pr fl ct Hm g progs s GT R) sid)). }
+  split; [exact M|]. intros _ Hc. unfold chk_complete_once_final. rewrite M. cbn.
+  apply forallb_forall. intros sid Hs. apply Nat.eqb_eq.
+  exact (complete_exactly_once cs ci cc cr pr fl ct Hm g progs s GT G R Hc sid Hs).
+Qed.
+Print Assumptions C12_complete_once_without_recycling.
+
+(* Termination.  A lexicographic measure (calls not yet started; packet/flush visits still to
+   make; pending removes; rank of the packets waiting in the retry loop) decreases on EVERY
+   step, for every configuration (with recycling, with the second remove): every run of a
+   finite program is finite - no fairness assumption - and by C12_progress every maximal run
+   ends with every thread returned.  machine_tight (a connection becomes closed only when the
+   machine reports it) is needed for tcpassembly's retry loop and proved for its machine. *)
+Theorem C12_terminates : forall cstate cinit cclosed creset process flush ctrail g progs s t s',
+  machine_ok cstate cinit cclosed creset process flush ->
+  (g_pkg g = Tcp -> machine_tight cstate cclosed process flush) ->
+  reachable cstate cinit cclosed creset process flush ctrail g progs s ->
+  exec cstate cinit cclosed creset process flush ctrail g s t = Some s' ->
+  mP cstate s' < mP cstate s \/
+  (mP cstate s' = mP cstate s /\ mX cstate cinit cclosed g s' < mX cstate cinit cclosed g s).
+Proof.
+  intros cs ci cc cr pr fl ct g progs s t s' Hm T R E.
+  exact (measure_decreases cs ci cc cr pr fl ct Hm g progs s t s' T R E).
+Qed.
+Theorem C12_runs_finite : forall cstate cinit cclosed creset process flush ctrail g progs s,
+  machine_ok cstate cinit cclosed creset process flush ->
+  (g_pkg g = Tcp -> machine_tight cstate cclosed process flush) ->
+  reachable cstate cinit cclosed creset process flush ctrail g progs s ->
+  Acc (step_rel cstate cinit cclosed creset process flush ctrail g progs) s.
+Proof. intros cs ci cc cr pr fl ct g progs s Hm T R. exact (terminates cs ci cc cr pr fl ct Hm g progs T s R). Qed.
+Theorem C12_complete_run : forall cstate cinit cclosed creset process flush ctrail g progs s,
+  machine_ok cstate cinit cclosed creset process flush ->
+  (g_pkg g = Tcp -> machine_tight cstate cclosed process flush) ->
+  reachable cstate cinit cclosed creset process flush ctrail g progs s ->
+  exists s', runs cstate cinit cclosed creset process flush ctrail g s s' /\
+             reachable cstate cinit cclosed creset process flush ctrail g progs s' /\
+             final cstate cinit cclosed creset process flush ctrail g s' /\ all_done s' = true.
+Proof. intros cs ci cc cr pr fl ct g progs s Hm T R. exact (complete_run cs ci cc cr pr fl ct Hm g progs T s R). Qed.
+Theorem C12_final_all_done : forall cstate cinit cclosed creset process flush ctrail g progs s,
+  reachable cstate cinit cclosed creset process flush ctrail g progs s ->
+  final cstate cinit cclosed creset process flush ctrail g s -> all_done s = true.
+Proof. intros cs ci cc cr pr fl ct g progs s R F. exact (final_all_done cs ci cc cr pr fl ct g progs s R F). Qed.
+Theorem C12_machine_tight_tcpassembly : machine_tight tconn tc_closed tcp_process tcp_flush.
+Proof. exact tcp_machine_tight. Qed.
+Print Assumptions C12_terminates.
+Print Assumptions C12_runs_finite.
+Print Assumptions C12_complete_run.
+Print Assumptions C12_final_all_done.
+Print Assumptions C12_machine_tight_tcpassembly.
 
 (* the hypothesis on the per-connection machine holds for the two concrete machines *)
 Theorem C12_machine_ok_tcpassembly : machine_ok tconn tc_init tc_closed tcp_reset tcp_process tcp_flush.
@@ -317,6 +432,16 @@ Example C12_retry_twice_nonvacuous :
   let s := sched_tcp cfg_tcp progs [0;0;0;0;1;0;0;1;0;0;0;1;0;0;0;1;1;1;1] in
   s_nsid s = 3 /\ length (filter (fun tg => match tg with TgRetry => true | _ => false end) (s_tags s)) = 2 /\
   chk_complete_most_once s = true.
+Proof. vm_compute. repeat split; reflexivity. Qed.
+
+(* non-vacuity of termination and exactly-once: the measure of an initial state is positive and a
+   complete run without recycling completes the three streams of the retry-twice program once each *)
+Example C12_terminates_nonvacuous :
+  let g := mkCfg Tcp false false true in
+  let progs := [[synT kA0 1; fin1 kA0; synT kA0 2; fin1 kA0]; [dat kA0]; [OFlush None]] in
+  let s := sched_tcp g progs ([0;0;0;0;1;0;0;1;0;0;0;1;0;0;0;1;1;1;1] ++ [2;2;2;2]) in
+  mP tconn (init tconn progs) = 6 /\ all_done s = true /\ s_conns s = [] /\
+  length (s_kept s) = 3 /\ chk_complete_once_final s = true.
 Proof. vm_compute. repeat split; reflexivity. Qed.
 
 (* non-vacuity of C12_one_entry: after the both-directions race on the repaired code the map
